@@ -419,7 +419,91 @@ def oracle_distreg(c):
     return {"nt": bool(c["np_loc"]), "cls": ["x64" if x64() else "f32", c["family"], "np" if c["np_loc"] else "p-only"]}
 
 
+# ------------------------------------------------------------------------------ default bijectors with variable arguments
+def gen_dep_bounds():
+    from hypothesis import strategies as st
+
+    fl = st.floats(-3.0, 3.0, allow_nan=False, width=32)
+    step = st.tuples(st.sampled_from(["low", "width", "xt", "low", "width"]), fl)
+    return st.fixed_dictionaries({"family": st.sampled_from(["Uniform", "TruncatedNormal"]), "how": st.sampled_from(["transform", "auto", "transform_late"]),
+                                  "low": fl, "width": st.floats(0.25, 4.0, width=32), "x01": st.sampled_from([0.0625, 0.25, 0.5, 0.75, 0.9375]),
+                                  "steps": st.lists(step, min_size=1, max_size=6), "free": st.booleans()})
+
+
+def oracle_dep_bounds(c):
+    """x ~ Uniform(low, high) / TruncatedNormal(0.3, 1.5, low, high) with `low`, `high` model variables, x transformed with the DEFAULT
+    event-space bijector (Sigmoid(low, high), built from the variables): after any assignment to low / high / the transformed value,
+    value(x), log_prob, log_prior and log_lik equal the float64 change-of-variables formulas at the CURRENT bounds."""
+    dt = np.float64 if x64() else np.float32
+    lo0, w0 = float(c["low"]), float(c["width"])
+    low = lsl.param(dt(lo0), lsl.Dist(tfd.Normal, loc=dt(0.0), scale=dt(5.0)), name="low")
+    width = lsl.param(dt(w0), lsl.Dist(tfd.Gamma, concentration=dt(2.0), rate=dt(1.0)), name="width")
+    high = lsl.Var(lsl.Calc(lambda a, b: a + b, low, width), name="high")
+    x0 = dt(lo0 + w0 * float(c["x01"]))
+    if c["family"] == "Uniform":
+        dist = lsl.Dist(tfd.Uniform, low=low, high=high)
+    else:
+        dist = lsl.Dist(tfd.TruncatedNormal, loc=dt(0.3), scale=dt(1.5), low=low, high=high)
+    x = lsl.param(x0, dist, name="x")
+    y = lsl.obs(dt(0.7), lsl.Dist(tfd.Normal, loc=x, scale=dt(2.0)), name="y")
+    extra = []
+    if c.get("free"):
+        # a distribution node that belongs to no variable (a soft constraint tying width to low): part of log_prob, of neither prior nor likelihood
+        soft = lsl.Dist(tfd.Normal, loc=low, scale=dt(3.0), _name="soft_constraint")
+        soft.at = width.var_value_node
+        extra = [soft]
+    how = c["how"] if not (x64() and c["how"] == "transform_late") else "transform"   # the deprecated GraphBuilder.transform computes in float32
+    if how == "auto":
+        x.auto_transform = True
+        model = lsl.GraphBuilder(to_float32=not x64()).add(y, *extra).build_model()
+    elif how == "transform":
+        x.transform()
+        model = lsl.GraphBuilder(to_float32=not x64()).add(y, *extra).build_model()
+    else:
+        gb = lsl.GraphBuilder(to_float32=not x64()).add(y, *extra)
+        gb.transform(x)
+        model = gb.build_model()
+    tname = "x_transformed"
+    require(tname in model.vars, "default-transform-missing", lambda: f"{sorted(model.vars)}")
+    cur = {"low": lo0, "width": w0, "xt": float(np.asarray(model.vars[tname].value))}
+    det = f"{c}"
+    moved_bound = False
+
+    def check(tag):
+        lo, w, xt = np.float64(cur["low"]), np.float64(cur["width"]), np.float64(cur["xt"])
+        sg = 1.0 / (1.0 + np.exp(-xt))
+        xv = lo + w * sg
+        ljac = np.log(w) + np.log(sg) + np.log1p(-sg)
+        if c["family"] == "Uniform":
+            lpx = -np.log(w)
+        else:
+            a, b = (lo - 0.3) / 1.5, (lo + w - 0.3) / 1.5
+            lpx = sps.truncnorm.logpdf(xv, a, b, loc=0.3, scale=1.5)
+        prior = sps.norm.logpdf(lo, 0.0, 5.0) + sps.gamma.logpdf(w, 2.0, scale=1.0) + lpx + ljac
+        lik = sps.norm.logpdf(0.7, xv, 2.0)
+        tol = (1e-9 if x64() else 2e-4) * (1 + abs(prior) + abs(lik) + abs(ljac))
+        gx = float(np.asarray(model.vars["x"].value))
+        require(abs(gx - xv) <= (1e-9 if x64() else 2e-5) * (1 + abs(xv) + abs(lo) + w), "dep-bounds:value-of-x-stale", lambda: f"{tag}: x={gx} expected {xv} at {cur}; {det}")
+        free = sps.norm.logpdf(w, lo, 3.0) if c.get("free") else 0.0
+        for name, want in (("log_prior", prior), ("log_lik", lik), ("log_prob", prior + lik + free)):
+            got = float(np.asarray(getattr(model, name)))
+            require(abs(got - want) <= tol, f"dep-bounds:{name}", lambda: f"{tag}: {name}={got} expected {want} at {cur}; {det}")
+
+    check("after build")
+    for i, (what, v) in enumerate(c["steps"]):
+        if what == "low":
+            cur["low"] = float(dt(v)); model.vars["low"].value = dt(v); moved_bound = True
+        elif what == "width":
+            cur["width"] = float(dt(0.25 + abs(v))); model.vars["width"].value = dt(0.25 + abs(v)); moved_bound = True
+        else:
+            cur["xt"] = float(dt(v)); model.vars[tname].value = dt(v)
+        check(f"step {i} ({what})")
+    return {"nt": moved_bound, "cls": [c["family"], how, "free-dist" if c.get("free") else "var-dists-only", "bound-moved" if moved_bound else "bounds-fixed"]}
+
+
 SUBS = [
     Sub("programs", oracle, gen=gen, n={"quick": 1600, "thorough": 30000}, shrink_calls=150, what="generated model programs vs float64 scipy evaluator"),
+    Sub("dep_bounds", oracle_dep_bounds, gen=gen_dep_bounds, n={"quick": 96, "thorough": 2000}, shrink_calls=40,
+        what="default event-space bijector whose arguments are model variables, re-assigned after the build"),
     Sub("distreg", oracle_distreg, gen=gen_distreg, n={"quick": 64, "thorough": 1200}, shrink_calls=40, what="DistRegBuilder models vs hand-written evaluation"),
 ]
